@@ -106,6 +106,10 @@ func c15Request(c *Ctx) {
 			_, _ = w.Write([]byte("ok"))
 		})
 		opts := []buffer.Option{buffer.MaxRequestBodyBytes(p.max)}
+		verbose := i%2 == 1
+		if verbose { // verbose mode dumps the request through a Logger that really formats
+			opts = append(opts, buffer.Verbose(true), buffer.Logger(fmtLogger{}))
+		}
 		if p.mem > 0 {
 			opts = append(opts, buffer.MemRequestBodyBytes(p.mem))
 		}
@@ -121,9 +125,13 @@ func c15Request(c *Ctx) {
 		if p.chunked {
 			rd = struct{ io.Reader }{rd}
 		}
-		req, _ := http.NewRequest("POST", srv.URL+"/", rd)
+		req, _ := http.NewRequest(pick(r, []string{"POST", "PUT", "POST"}), srv.URL+"/", rd)
+		ctype := pick(r, []string{"application/octet-stream", "application/x-www-form-urlencoded", ""})
+		if ctype != "" {
+			req.Header.Set("Content-Type", ctype)
+		}
 		resp, err := client.Do(req)
-		desc := map[string]any{"mem": p.mem, "max": p.max, "size": p.size, "chunked": p.chunked}
+		desc := map[string]any{"mem": p.mem, "max": p.max, "size": p.size, "chunked": p.chunked, "verbose": verbose, "content_type": ctype}
 		c.Eval()
 		status := 0
 		if err == nil {
